@@ -36,14 +36,32 @@ class sym_int(metaclass=_IntMeta):
         return _real_int(x, *a)
 
 
-SHIMS = {'isinstance': sym_isinstance, 'int': sym_int}
+def _round(x, n=None):
+    from .symfloat import sym_round
+    return sym_round(x, n)
+
+
+def _math():
+    from .symfloat import MathShim
+    return MathShim()
+
+
+SHIMS = {'isinstance': sym_isinstance, 'int': sym_int, 'round': _round}
 
 
 def install(module, names=('isinstance', 'int')):
     for n in names:
-        module.__dict__[n] = SHIMS[n]
+        if n == 'math':
+            module.__dict__['__real_math'] = module.__dict__.get('math')
+            module.__dict__['math'] = _math()
+        else:
+            module.__dict__[n] = SHIMS[n]
 
 
 def uninstall(module, names=('isinstance', 'int')):
     for n in names:
-        module.__dict__.pop(n, None)
+        if n == 'math':
+            if '__real_math' in module.__dict__:
+                module.__dict__['math'] = module.__dict__.pop('__real_math')
+        else:
+            module.__dict__.pop(n, None)
